@@ -217,6 +217,10 @@ func (ex *Exec) callFn(caller *frame, pos token.Pos, fn *ssa.Function, args []va
 			}
 			return t
 		}
+		if v, ok := ex.generatedGetter(fn, pkgPath, args); ok {
+			ex.Models["protoc-gen-go getter (model)"]++
+			return v
+		}
 		panic(ex.unsupported("call to unmodelled " + name + ex.stackOf(caller)))
 	}
 	return ex.callSSA(caller, pos, fn, args, nil)
@@ -804,4 +808,34 @@ func (ex *Exec) visitInstrTolerant(fr *frame, in ssa.Instruction) (left bool) {
 		}
 	}()
 	return ex.visitInstr(fr, in)
+}
+
+// generatedGetter models the protoc-gen-go getter (*M).GetF() of a google/fhir message whose package is loaded
+// without bodies (the 146 resource packages): nil-safe read of the struct field F. Getters of oneof members, which
+// look through the wrapper type, are not modelled.
+func (ex *Exec) generatedGetter(fn *ssa.Function, pkgPath string, args []value) (value, bool) {
+	if !strings.HasPrefix(pkgPath, "github.com/google/fhir/go/proto/") || !strings.HasPrefix(fn.Name(), "Get") || len(args) != 1 || fn.Signature.Recv() == nil || fn.Signature.Results().Len() != 1 {
+		return nil, false
+	}
+	named := protoStructOf(fn.Signature.Recv().Type())
+	if named == nil {
+		return nil, false
+	}
+	st, ok := named.Underlying().(*types.Struct)
+	if !ok {
+		return nil, false
+	}
+	want := fn.Name()[3:]
+	for i := 0; i < st.NumFields(); i++ {
+		f := st.Field(i)
+		if f.Name() != want || !types.Identical(f.Type(), fn.Signature.Results().At(0).Type()) {
+			continue
+		}
+		p, _ := args[0].(*value)
+		if p == nil {
+			return ex.zero(f.Type()), true
+		}
+		return (*p).(structure)[i], true
+	}
+	return nil, false
 }
